@@ -153,11 +153,12 @@ Qed.
 
 Lemma every_address_reachable : forall subnets c rp a,
   In (c, rp) subnets -> wf_cidr c -> v4mapped c = false -> contains c (eff_fam c) a ->
+  a / 2 ^ 32 <> 65535 ->
   exists id ph, id < snd (id_nets subnets 0) /\
                 locate_hkdf (fst (id_nets subnets 0)) id = Ok ph /\
                 be_to_N (p_bytes ph) = a /\ p_rand_port ph = rp /\ blen (p_bytes ph) * 8 = bits (eff_fam c).
 Proof.
-  intros subnets c rp a Hin Hwf Hm (_ & Hlo & Hhi).
+  intros subnets c rp a Hin Hwf Hm (_ & Hlo & Hhi) Hnm.
   apply in_split in Hin. destruct Hin as (pre & post & ->).
   assert (Heb : eff_base c = base c) by (unfold eff_base; rewrite Hm; reflexivity).
   assert (Hef : eff_fam c = fam c).
@@ -174,7 +175,8 @@ Proof.
     assert (Hsz : N.size a <= 8 * addr_len c).
     { apply size_lt_pow. replace (8 * addr_len c) with (bits (eff_fam c)) by (rewrite <- addr_len_bits; lia).
       rewrite Hef. lia. }
-    replace (N.size a <=? 8 * addr_len c) with true by lia. reflexivity. }
+    replace (N.size a <=? 8 * addr_len c) with true by lia.
+    replace (a / 2 ^ 32 =? 65535) with false by lia. rewrite andb_false_r. reflexivity. }
   exists id, {| p_bytes := N_to_be (addr_len c) a; p_rand_port := rp |}.
   split; [assumption|]. split; [rewrite Hloc; exact Ha|]. cbn [p_bytes p_rand_port].
   split; [|split; [reflexivity|rewrite N_to_be_length; apply addr_len_bits]].
